@@ -72,3 +72,30 @@ Theorem C08_history_constref_was_refuted :
     /\ path_in x (snd (fst (run code_before_constref (li_of c) i fs_empty))) = false.
 Proof. exists (w_cfg SAsNeeded false None None), w_inputs_constref, [[108]; [68]]. vm_compute. repeat split; reflexivity. Qed.
 Print Assumptions C08_history_constref_was_refuted.
+
+(* F-LIST-INPUTS-PYRES and F-LIST-INPUTS-SYMLINKDIR (fixed by 156042d): before, get_templates dropped every .py file and did not
+   descend into symbolically linked sub-directories of a templates directory. `code_before_closure_fix` is today's translation with
+   those two repairs switched off. *)
+Definition code_before_closure_fix : code := {|
+  k_sgs := k_sgs the_code; k_reject := k_reject the_code; k_read := k_read the_code; k_prog := k_prog the_code;
+  k_ns_arg := k_ns_arg the_code; k_ns_decide := k_ns_decide the_code; k_sup_tpl := k_sup_tpl the_code;
+  k_guard_type := k_guard_type the_code; k_guard_header := k_guard_header the_code; k_guard_copy := k_guard_copy the_code;
+  k_types_all_when_ns := k_types_all_when_ns the_code;
+  k_fix_lookup := k_fix_lookup the_code; k_fix_nonj2 := true; k_fix_suptpl := k_fix_suptpl the_code;
+  k_path_pure := k_path_pure the_code; k_ns_check := k_ns_check the_code; k_fix_constref := k_fix_constref the_code;
+  k_stem_check := k_stem_check the_code;
+  k_fix_pyres := false; k_fix_linkdir := false |}.
+Theorem C08_history_pyres_was_refuted :
+  let c := w_cfg SNever false (Some w_tpl_pyres) None in let x := [[112]; [120]] in
+  eff_trig_tpl code_before_closure_fix c w_inputs_plain = true
+  /\ path_in x (influence_set code_before_closure_fix c w_inputs_plain) = true
+  /\ path_in x (snd (fst (run code_before_closure_fix (li_of c) w_inputs_plain fs_empty))) = false.
+Proof. vm_compute. repeat split; reflexivity. Qed.
+Print Assumptions C08_history_pyres_was_refuted.
+Theorem C08_history_linkdir_was_refuted :
+  let c := w_cfg SNever false (Some w_tpl_linked) None in let x := [[112]; [120]] in
+  eff_trig_tpl code_before_closure_fix c w_inputs_plain = true
+  /\ path_in x (influence_set code_before_closure_fix c w_inputs_plain) = true
+  /\ path_in x (snd (fst (run code_before_closure_fix (li_of c) w_inputs_plain fs_empty))) = false.
+Proof. vm_compute. repeat split; reflexivity. Qed.
+Print Assumptions C08_history_linkdir_was_refuted.
